@@ -97,6 +97,13 @@ CHECKS.update({
    note="Trusted base: TLC 1.8 evaluating spec/NGlobSem.tla; checks/c17.py (pattern rendering, tree construction). Alphabet a b . with names a b ab .a b.a, depth <= 3; substitutions stay inside one component; no symbolic links."),
 })
 
+CHECKS.update({
+ "C13": dict(engine="c13", category="model_checking", design_ref="§8 C13",
+   technique="TLA+ specification of the byte stream fed to SHA-256 (spec/HashEncCore.tla) model checked for injectivity on an adversarial domain (spec/HashEnc.tla, linear check through VIEW + distinct-state count) and replayed against the real StepHash with a recording hash object (spec/HashVec.tla); TLA+ specification of FileHash.refreshed (spec/Refresh.tla) with trace validation of recorded calls on real files",
+   text="TLC proves on a domain of 324000 configurations built from the section keywords, the empty string, defined/undefined variables and known/unknown file hashes that the input stream is injective on two sub-domains covering all pairs but the known collision F22, and that the output stream is injective. The real from_inp/with_out_hashes are executed with a recording hash object on seeded configurations (non-ASCII, control characters, keywords, 2^63-1 sizes) in shuffled ingredient order; the bytes fed to SHA-256 must equal the specification's stream, and for every single-ingredient mutation (label, shell, path, content, size, mode, definedness, value, override, section move) digest equality must coincide with stream equality (i.e. differ). Recorded refreshed() calls after file manipulations (same-size rewrite with restored mtime, chmod, replace by rename, delete, recreate, touch) are validated by TLC against Refresh.tla.",
+   note="Trusted base: TLC 1.8; SHA-256 collision freeness; digests of existing files are not adversarial 32-byte values; the recorder that replaces hashlib.sha256 inside HashWords. JSON round trips are checked by generated values outside the TLA+ specification (encode/decode fidelity)."),
+})
+
 PENDING = ["C01","C02","C04","C05","C06","C07","C11","C13","C14","C16","C17","C18","C20"]
 
 def main():
@@ -131,6 +138,7 @@ def main():
             {"name": "crash", "path": "checks/crash.py", "serves_properties": ["C05"],
              "kind_free_text": "snapshot-based crash injection at every commit / step fs action / cleanup removal of Layer B executions"},
             {"name": "c16", "path": "checks/c16.py", "serves_properties": ["C16"], "kind_free_text": "Rpc.tla exhaustive model check + trace validation of the real RPCServerConnection"},
+            {"name": "c13", "path": "checks/c13.py", "serves_properties": ["C13"], "kind_free_text": "HashEnc.tla injectivity model check + HashVec.tla stream vectors against the real StepHash + Refresh.tla trace validation"},
             {"name": "c17", "path": "checks/c17.py", "serves_properties": ["C17"], "kind_free_text": "NGlobSem.tla vectors replayed into NamedGlob on real trees + NGlobModel.tla exhaustive model check"},
             {"name": "c18", "path": "checks/c18.py", "serves_properties": ["C18"], "kind_free_text": "Prefix.tla vectors replayed into every directory-selection site of the real code"},
             {"name": "history", "path": "checks/history.py", "serves_properties": sorted(p for p, c in CHECKS.items() if c["engine"] == "history"),
